@@ -128,6 +128,9 @@ def one_history(ns, tid, seed, want_real_update=True):
     date = {"first": lo, "interior": lo + timedelta(hours=rng.randint(1, max(1, n_hours - 1))), "last": hi,
             "before": lo - timedelta(hours=30), "after": hi + timedelta(hours=30), "naive": lo.tz_localize(None)}[date_kind]
     date = date.to_pydatetime()
+    if date.tzinfo is not None and rng.random() < 0.4:
+        # the same instant written in another zone is the same simulation date
+        date = date.astimezone(ns.pytz.timezone(rng.choice(["Asia/Tokyo", "America/New_York", "Asia/Kolkata", "Europe/Paris"])))
     events, seq = [], 0
     st = proj.state(live)
     events.append(dict(tid=tid, seq=seq, ev="Baseline", seed=seed, flavour=flavour, **st))
@@ -155,7 +158,7 @@ def one_history(ns, tid, seed, want_real_update=True):
             olds = list(old.items()) if isinstance(old, dict) else [(None, old)]
             news = dict(new.items()) if isinstance(new, dict) else {None: new}
             twin_ok = getattr(old, "simulation_twin", None) is new and getattr(new, "baseline_twin", None) is old
-            slot0 = f"{owner.name}|{old.attr_name_in_mod_obj_container}|" + ("#" if isinstance(old, dict) else "-")
+            slot0 = f"{getattr(owner, 'name', '<detached>')}|{old.attr_name_in_mod_obj_container}|" + ("#" if isinstance(old, dict) else "-")
             mins = []
             for k, nv in news.items():
                 if isinstance(nv, ns.ExplainableHourlyQuantities):
@@ -190,7 +193,7 @@ def recomputed_summary(ns, proj, sim):
         owner = old.modeling_obj_container
         news = dict(new.items()) if isinstance(new, dict) else {None: new}
         twin_ok = getattr(old, "simulation_twin", None) is new and getattr(new, "baseline_twin", None) is old
-        slot0 = f"{owner.name}|{old.attr_name_in_mod_obj_container}|" + ("#" if isinstance(old, dict) else "-")
+        slot0 = f"{getattr(owner, 'name', '<detached>')}|{old.attr_name_in_mod_obj_container}|" + ("#" if isinstance(old, dict) else "-")
         mins = [int(nv.value.index.min().timestamp() // 3600) for nv in news.values()
                 if isinstance(nv, ns.ExplainableHourlyQuantities)]
         out.append({"slot": slot0, "baseline_tok": proj.token(old), "sim_tok": proj.token(new), "twin_ok": bool(twin_ok),
